@@ -1,21 +1,86 @@
 """Per-property configuration of bin/check: theorem modules, campaign mode, trusted base."""
 
 KERNEL = "Lean 4.33.0 kernel (every property theorem's axiom closure is audited to be a subset of propext, Classical.choice, Quot.sound; no sorry/admit/axiom/native_decide/bv_decide)"
-MODEL = "hand-written Lean model of pkg/sif (SifVerif/Model/*.lean), tied to the Go code by the correspondence campaign of this run and by the regenerated facts (SifVerif/Generated/Facts.lean, Props/FactsCheck.lean)"
-HARNESS = "the Go harness/comparator (harness/*.go) and the Lean line-protocol driver (Driver/Main.lean): a bug there could hide a disagreement"
-STDLIB = "modelled, not verified: encoding/binary, io.Copy/CopyN/SectionReader/MultiReader/TeeReader, google/uuid, go-containerregistry v1.Hash text codec, the Go runtime"
+MODEL = "hand-written Lean model of pkg/sif (lean/SifVerif/Model/*.lean), tied to the Go code by the correspondence campaign of this run (and by regenerated source facts where extract/ covers them)"
+HARNESS = "the Go harness/comparator (harness/*.go) and the Lean line-protocol driver (lean/Driver/Main.lean): a bug there could hide a disagreement"
+STDLIB = "modelled, not verified: encoding/binary, io.Copy/CopyN/SectionReader/MultiReader/TeeReader, google/uuid, go-containerregistry v1.Hash text codec, the Go runtime and OS file"
 CORR = "correspondence shows agreement on the inputs run, not on all inputs; the generator's measured distribution is in coverage.distribution"
+RANGES = "theorems about histories assume `Ranges` of every reached state (all header/descriptor integers representable in their Go types, i.e. no int64 wrap-around) and exclude store I/O failures (C09's subject); the Lean driver evaluates Ranges, WF and Placed on every state the campaign reaches and prints `inv ok`, compared with the harness's constant `inv ok`"
 
 BASE = [KERNEL, MODEL, HARNESS, STDLIB]
+HIST = "Lean 4 theorems (induction over operation histories, invariants, frame lemmas) about an executable model of pkg/sif + byte-exact differential correspondence (Go library vs Lean driver) on generated histories + implementation-only oracle"
 
 PROPS = {
+    "C01": {
+        "modules": ["SifVerif.Props.C01"],
+        "theorems": ["C01_add", "C01_create", "C01_persist", "C01_reload", "C01_name", "C01_launch", "C01_name_trailing_nul", "C01_oci_digest", "C01_oci_default"],
+        "mode": "hist", "technique": HIST,
+        "level_text": "proof: for every well-formed and correctly placed handle and every descriptor input, an accepted AddObject yields a descriptor whose content read back through the store equals the input bytes (any length/alignment) and whose attributes are those recorded by fillDescriptor (C01_add); CreateContainer with any list of initial objects returns each of them, in order, with launch script, ID and times as given (C01_create); content and descriptors persist through any later operation that does not target them (C01_persist, from the C03 frame theorem) and a reload sees the same view (C01_reload, from C08); NUL-padded names and launch scripts round-trip unless they end in NUL (C01_name, C01_launch; C01_name_trailing_nul proves what happens at the excluded point); OCI objects carry sha256 of exactly the stored bytes (C01_oci_digest). SHA-256 is a parameter of the theorems. Tie: byte-exact correspondence of whole files and full views on create/add histories incl. boundary sizes and alignments on both backends, plus a read-back oracle.",
+        "summary": "create/add then read back returns exactly the inputs, on the handle and after load; OCI extra = digest of stored bytes",
+        "trusted_base": BASE,
+        "assumptions": [CORR, RANGES, "SHA-256 enters the theorems as an uninterpreted function `sha`; the driver's SHA-256 (Driver/SHA2.lean) is validated against Go's crypto/sha256 by every OCI object of the campaign"],
+    },
+    "C02": {
+        "modules": ["SifVerif.Props.C02"],
+        "theorems": ["C02_rejected", "C02_ids_accounting", "C02_invariant_step", "C02_history", "C02_created", "C02_add_fresh_id", "C02_mtime"],
+        "mode": "hist", "technique": HIST,
+        "level_text": "proof: WF (unique live IDs, free+used=capacity, header/table bytes = encoding of the handle, coherent minimum-ID cache, …) is an invariant of every operation from any well-formed state, created (C02_created) or foreign, along histories of any length (C02_invariant_step, C02_history); a rejected operation of any kind leaves header, descriptors, cache, every object's content and the header/table bytes unchanged (C02_rejected, full strength after the D1/D9 repair); AddObject never reuses a live ID on any table (C02_add_fresh_id, D5 repair); requested modification times are recorded (C02_mtime). Partial: the primary-partition/architecture clause is checked by the oracle and correspondence only, and is a known finding when partition metadata is written as raw bytes (D7); the abstract slot-map refinement is expressed through the per-operation effect theorems of C01/C03 rather than a separate spec type. Tie: accept/reject and full view after every step of generated histories with every rejection kind.",
+        "summary": "invariants by induction over any history from any well-formed state; rejected op = identity",
+        "trusted_base": BASE,
+        "assumptions": [CORR, RANGES],
+    },
+    "C03": {
+        "modules": ["SifVerif.Props.C03"],
+        "theorems": ["C03_nextAligned", "C03_created", "C03_preserved", "C03_history", "C03_table", "C03_frame", "C03_frame_desc_add", "C03_frame_desc_del", "C03_aligned"],
+        "mode": "hist", "technique": HIST,
+        "level_text": "proof: total specification of nextAligned on all of int64>=0 (least aligned offset, or overflow exactly when none fits); the placement invariant (live regions pairwise disjoint, after the table, inside the data section and the file) holds for created images and is preserved by every operation along any history (C03_created, C03_preserved, C03_history); no operation changes a byte of a surviving object's region or descriptor (C03_frame, C03_frame_desc_*), proved through a call-level safety predicate closed under prefixes and torn writes; new objects start at a multiple of the requested alignment (C03_aligned). Not yet proved in Lean (checked by oracle + byte-exact correspondence only): exact zeroing and the exact file end after compaction. Tie: whole file compared byte for byte after every step; independent raw decoder oracle.",
+        "summary": "placement invariant, frame lemmas, nextAligned total spec",
+        "trusted_base": BASE,
+        "assumptions": [CORR, RANGES],
+    },
+    "C08": {
+        "modules": ["SifVerif.Props.C08"],
+        "theorems": ["C08_sync", "C08_step", "C08_history", "C08_reload_noop", "C08_sign_verify_same"],
+        "mode": "hist", "technique": HIST,
+        "level_text": "proof: for every well-formed handle a fresh load of the current bytes succeeds and yields the same view - header, every live descriptor, relative IDs, contents, header and descriptor integrity streams (C08_sync); WF is preserved by every accepted or rejected operation, so this holds after every step of every history (C08_step, C08_history); any function of the view - in particular signing and verification - gives the same outcome on handle and reload (C08_sign_verify_same). Full strength after the D1/D2 repairs. Tie: handle view vs reload view vs model, after every step, both backends.",
+        "summary": "load (bytes s) ~ s for every reachable handle state incl. after rejected ops",
+        "trusted_base": BASE,
+        "assumptions": [CORR, RANGES],
+    },
+    "C11": {
+        "modules": ["SifVerif.Props.C11"],
+        "theorems": ["C11_sizes", "C11_hdr_offsets", "C11_desc_offsets", "C11_roundtrip", "C11_int_codecs", "C11_load_encoded", "C11_encodeImage_loadable", "C11_refuse", "C11_group_link"],
+        "mode": "hist", "technique": HIST,
+        "level_text": "proof: header = 128 bytes, descriptor = 585 bytes, every field at its fixed little-endian offset (C11_sizes, C11_*_offsets); decode o encode = id on all representable values (C11_roundtrip, C11_int_codecs); any image laid out that way by an independent encoder - arbitrary valid fields, free slots, ID numbering, placement, gap after the table - loads with exactly that header and those descriptors (C11_load_encoded, C11_encodeImage_loadable); magic/version mismatch is refused (C11_refuse); group/link nibble encoding (C11_group_link). Tie: the Lean encoder's bytes equal the library's files byte for byte on every campaign step and the library's loader agrees with the Lean decoder on them; independent Go decoder oracle.",
+        "summary": "fixed offsets, 128/585 bytes, decode.encode = id; load of any encoded image yields that image; wrong magic/version refused",
+        "trusted_base": BASE,
+        "assumptions": [CORR],
+    },
+    "C12": {
+        "modules": ["SifVerif.Props.C12"],
+        "theorems": ["C12_step", "C12_noninterference", "C12_create", "C12_create_det_option", "C12_zero_fields_add", "C12_stays_deterministic"],
+        "mode": "hist", "technique": HIST,
+        "level_text": "proof (non-interference): the clock reading and the random UUID are explicit parameters of the model; an operation that carries the deterministic option or an explicit time, or is applied to an already deterministic image, has an outcome (handle, bytes, result) independent of the clock (C12_step), hence whole histories do (C12_noninterference); creation likewise (C12_create, C12_create_det_option); deterministic histories keep nil ID and zero times (C12_stays_deterministic, C12_zero_fields_add). Backend independence is C14 (known finding D8 for capacity 0). Signature-blob determinism is outside the model. Tie: every history is run twice across a wall-clock second boundary on the two backends and compared with each other and with the model's bytes.",
+        "summary": "bytes do not depend on clock or RNG under deterministic/explicit options",
+        "trusted_base": BASE,
+        "assumptions": [CORR, "signing with a fixed signature time is not modelled (the signature blob is an input of the model)"],
+    },
     "C13": {
         "modules": ["SifVerif.Props.C13"],
         "theorems": ["C13_filter", "C13_filter_pred", "C13_sublist", "C13_single", "C13_empty", "C13_zero_partial", "D6_witness"],
-        "mode": "hist",
-        "level_text": "proof: the selection functions of the model are proved, for every image and every selector tuple, to return exactly the filter of the live descriptors in table order, and the single-object form the unique match / not-found / multiple-found; the model is tied to select.go by the query correspondence (every selector tuple of length 0-3 on every image reached by generated histories, implementation vs Lean driver) and an implementation-only oracle. The zero-ID/group clause holds only when the selector is evaluated (known finding D6, proved as D6_witness).",
-        "summary": "GetDescriptors = filter of the live descriptors by the conjunction of the selectors, in table order (C13_filter, C13_filter_pred, C13_sublist); GetDescriptor = unique match / not found / multiple (C13_single); empty image (C13_empty); zero ID/group is an error when evaluated (C13_zero_partial) with D6_witness proving the full-strength reading false of the code (known finding D6)",
+        "mode": "hist", "technique": HIST,
+        "level_text": "proof: the selection functions of the model are proved, for every image and every selector tuple, to return exactly the filter of the live descriptors in table order, and the single-object form the unique match / not-found / multiple-found; the model is tied to select.go by the query correspondence (selector tuples of length 0-3 on every image reached by generated histories, implementation vs Lean driver) and an implementation-only oracle. The zero-ID/group clause holds only when the selector is evaluated (known finding D6, proved as D6_witness).",
+        "summary": "GetDescriptors = filter of the live descriptors by the conjunction of the selectors, in table order; GetDescriptor = unique/not found/multiple; empty image; zero id/group",
         "trusted_base": BASE,
         "assumptions": [CORR, "v1.Hash.UnmarshalText is a parameter of the theorems (any function); the driver instantiates it with parseHashV1, validated by the campaign's OCI-digest selectors"],
+    },
+    "C14": {
+        "modules": ["SifVerif.Props.C14"],
+        "theorems": ["C14_call", "C14_calls", "C14_read", "C14_library_calls", "C14_step", "C14_history", "D8_witness", "D8_capacity_zero"],
+        "mode": "hist", "technique": HIST,
+        "level_text": "proof: on every call of a shape the library issues (absolute seek >= 0, non-empty write anywhere incl. past the end, truncation within the length, seek-to-end, any positioned read) the Buffer model and the file model agree step by step (C14_call, C14_calls, C14_read); every call of every operation on a well-formed image of capacity > 0 has such a shape - in particular truncation never grows (C14_library_calls, D3 repair); hence every operation and every history returns the same results and byte-identical contents on both backends (C14_step, C14_history). The excluded shape (empty write past the end, issued only for capacity 0) really differs: D8_witness, D8_capacity_zero (known finding D8). The file model is a model of the OS, validated by running every history on a real os.File. Tie: three-way lock-step (Lean models, sif.Buffer, os.File).",
+        "summary": "Buffer model ~ POSIX-file model on the library's call shapes; library never truncates beyond the end",
+        "trusted_base": BASE + ["the `Backend.file` model of write/ftruncate semantics (validated only by the os.File runs of this campaign)"],
+        "assumptions": [CORR, RANGES],
     },
 }
